@@ -55,7 +55,10 @@ Definition unit_of (s : list N) : option angle_unit :=
   if opeq s "radian" then Some URadian else if opeq s "circle" then Some UCircle
   else if opeq s "degree" then Some UDegree else if opeq s "arcmin" then Some UArcmin
   else if opeq s "arcsec" then Some UArcsec else if opeq s "rightangle" then Some URightangle
-  else if opeq s "gradian" then Some UGradian else None.
+  else if opeq s "gradian" then Some UGradian
+  else if opeq s "quadrant" then Some UQuadrant else if opeq s "quintant" then Some UQuintant
+  else if opeq s "sextant" then Some USextant else if opeq s "zodiacsign" then Some UZodiacSign
+  else if opeq s "milliarcsec" then Some UMilliarcsec else None.
 
 (* oracle table ((in out) ...); a missing entry answers 0 (the check
    supplies every entry the *-queries ops ask for) *)
